@@ -25,6 +25,8 @@ func u64of(x interface{}) (uint64, bool) {
 //   MODE 5: old emptied by deletes (in memory); new = K inserts
 //   MODE 6: new emptied by deletes; old = N entries
 //   MODE 7: as MODE 3, but the two trees live in different stores (st for old, a second store for new)
+//   MODE 8: old = N entries persisted; new = a never-populated tree, persisted (root without link) and re-loaded
+//   MODE 9: old = never-populated persisted tree; new = K entries persisted
 var pairNewStore *vStore // the new tree's store when it differs from the old tree's (MODE 7)
 
 func makePair(st *vStore, cfg *RemoteConfig, bf uint) (old, nw *Mast, mdOld, mdNew *symModel, rOld, rNew *Root, ok bool) {
@@ -95,6 +97,30 @@ func makePair(st *vStore, cfg *RemoteConfig, bf uint) (old, nw *Mast, mdOld, mdN
 				return nil, nil, nil, nil, nil, nil, false
 			}
 			rNew = r
+		}
+	case 8, 9:
+		full := old
+		mdFull := mdOld
+		n := N
+		if mode == 9 {
+			n = K
+		}
+		buildAscending("full", full, mdFull, n)
+		var rFull *Root
+		if full, rFull, ok = persist(full); !ok {
+			return
+		}
+		var empty *Mast
+		var rEmpty *Root
+		if empty, rEmpty, ok = persist(fresh()); !ok {
+			return
+		}
+		if mode == 8 {
+			old, mdOld, rOld = full, mdFull, rFull
+			nw, mdNew, rNew = empty, &symModel{}, rEmpty
+		} else {
+			old, mdOld, rOld = empty, &symModel{}, rEmpty
+			nw, mdNew, rNew = full, mdFull, rFull
 		}
 	case 4:
 		old = nil
@@ -336,7 +362,9 @@ func HarnessC07a() {
 		difflinksLoads = append(difflinksLoads, stNew.loadLog[l0n:]...)
 	}
 	verifAssert("C07.difflinks.err", err == nil)
-	verifAssert("C07.links-are-names", allStr)
+	if rOld.Link != nil && rNew.Link != nil {
+		verifAssert("C07.links-are-names", allStr)
+	}
 	if err != nil {
 		return
 	}
